@@ -21,9 +21,11 @@ func init() {
 		limitMB = v
 	}
 	page := os.Getpagesize()
+	// the watchdog waits on a ticker channel, not in time.Sleep: the goroutine-state scans by
+	// which several plug-ins detect quiescence count "chan receive" as blocked, "sleep" as running
+	tick := time.NewTicker(250 * time.Millisecond)
 	go func() {
-		for {
-			time.Sleep(200 * time.Millisecond)
+		for range tick.C {
 			b, err := os.ReadFile("/proc/self/statm")
 			if err != nil {
 				return
